@@ -958,6 +958,45 @@ def c05_f_every_filter(fi: int, form: int) -> bool:
 DETAIL["c05_f_every_filter"] = lambda fi, form: {"template": F_FORMS[form] % F_NAMES[fi], "data_text_and_output": f_sweep(fi, form)[:3]}
 CONDITIONS.append({"fn": "c05_f_every_filter", "quick": 120, "thorough": 300, "sel_only": True})
 
+# --------------------------------------------------------------------------
+# G: the Template() convenience constructor (implicit, memoised environments): a template made with autoescape=True keeps
+# escaping whatever other Template(...) calls happen before or after it in the same process
+# --------------------------------------------------------------------------
+from liquid import Template as _Template  # noqa: E402
+
+G_SRC = ["{{ s }}", "{% capture c %}{{ s }}{% endcapture %}{{ c }}", "{% for x in xs %}{{ x }}{% endfor %}{{ xs | join: s }}", "{{ s | append: s | upcase }}"]
+G_OTHERS = [dict(), dict(autoescape=False), dict(autoescape=True), dict(autoescape=False, extra=True), dict(globals={"g": 1}),
+            dict(autoescape=False, strict_filters=False)]
+
+
+def g_case(k, before, after, i, j):
+    text = d_text(i, j)
+    if before >= 0:
+        _Template("{{ s }}", **G_OTHERS[before]).render(s=text)
+    page = _Template(G_SRC[k], autoescape=True)
+    if after >= 0:
+        other = _Template("{{ s }}{{ s | upcase }}", **G_OTHERS[after])
+        other.render(s=text)
+    return page.render(s=text, xs=[text, "a"])
+
+
+def c05_g_template_api(k: int, before: int, after: int, i: int, j: int) -> bool:
+    """
+    pre: 0 <= k <= 3 and -1 <= before <= 5 and -1 <= after <= 5 and 0 <= i <= 10 and 0 <= j <= 10
+    pre: (i <= 3 and j == 0) or (i == 1 and j <= 3)
+    post: _
+    """
+    if excluded("c05_g_template_api", locals()):
+        return True
+    k, before, after, i, j = cint(k, 0, 3), cint(before, -1, 5), cint(after, -1, 5), cint(i, 0, 10), cint(j, 0, 10)
+    return finish(untraced(lambda: html_safe(g_case(k, before, after, i, j))))
+
+
+DETAIL["c05_g_template_api"] = lambda k, before, after, i, j: {
+    "Template() call before": None if before < 0 else G_OTHERS[before], "page": G_SRC[k] + " with autoescape=True",
+    "Template() call after": None if after < 0 else G_OTHERS[after], "data text": d_text(i, j), "page output": g_case(k, before, after, i, j)}
+CONDITIONS.append({"fn": "c05_g_template_api", "quick": 60, "thorough": 120, "sel_only": True})
+
 ASSUMPTIONS = [
     "stub: markupsafe._escape_inner is bound to markupsafe._native._escape_inner (the documented pure-Python fallback) instead of the C speed-up, which would concretise symbolic strings before escaping; selftest compares both kernels",
     "template sources are concrete skeletons generated from the tables in harness/c05.py (constructs x filter chains); their literal text and string literals contain no HTML-special characters; render data s, t (strings), n (int), xs = [s, t] are symbolic",
